@@ -749,52 +749,44 @@ impl SwiftParser {
             )));
         }
 
-        let block_marker = format!("{{{block_index}:");
-
-        if let Some(start) = raw_message.find(&block_marker) {
-            let content_start = start + block_marker.len();
-
-            match block_index {
-                1 | 2 => {
-                    // Blocks 1 and 2 end with simple closing brace (no nested content)
-                    if let Some(end) = raw_message[start..].find('}') {
-                        let end = start + end;
-                        Ok(Some(raw_message[content_start..end].to_string()))
-                    } else {
-                        Ok(None)
-                    }
-                }
-                3 | 5 => {
-                    // Blocks 3 and 5 may have nested braces (e.g., {103:EBA} or {CHK:...})
-                    if let Some(end) = Self::find_matching_brace(&raw_message[start..]) {
-                        let end = start + end;
-                        Ok(Some(raw_message[content_start..end].to_string()))
-                    } else {
-                        Ok(None)
-                    }
-                }
-                4 => {
-                    // Block 4 ends with "-}"
-                    if let Some(end) = raw_message[start..].find("-}") {
-                        let end = start + end;
-                        Ok(Some(raw_message[content_start..end].to_string()))
-                    } else {
-                        Ok(None)
-                    }
-                }
-                _ => Err(ParseError::SwiftValidation(Box::new(
-                    crate::errors::SwiftValidationError::format_error(
-                        crate::swift_error_codes::t_series::T02,
-                        "BLOCK",
-                        &block_index.to_string(),
-                        "1-5",
-                        &format!("Invalid block index: {block_index}"),
-                    ),
-                ))),
+        // Walk the top-level blocks in order. Which text belongs to which block is decided by the
+        // block structure alone: a "{5:" or "-}" inside a field or tag value must not be mistaken
+        // for a block boundary.
+        let mut pos = 0;
+        while let Some(rel) = raw_message[pos..].find('{') {
+            let start = pos + rel;
+            let header = raw_message[start..].as_bytes();
+            if header.len() < 3 || !header[1].is_ascii_digit() || header[2] != b':' {
+                // not a block opener, keep scanning
+                pos = start + 1;
+                continue;
             }
-        } else {
-            Ok(None)
+            let id = header[1] - b'0';
+            let content_start = start + 3;
+            let end = if id == 4 {
+                // Block 4 ends with "-}" at the beginning of a line (or directly after "{4:")
+                let body = &raw_message[content_start..];
+                if body.starts_with("-}") {
+                    Some(content_start)
+                } else {
+                    body.find("\n-}")
+                        .map(|p| content_start + p + 1)
+                        .or_else(|| body.find("-}").map(|p| content_start + p))
+                }
+            } else {
+                // Other blocks end at their matching closing brace (nested tags allowed)
+                Self::find_matching_brace(&raw_message[start..]).map(|p| start + p)
+            };
+            let Some(end) = end else {
+                return Ok(None);
+            };
+            if id == block_index {
+                return Ok(Some(raw_message[content_start..end].to_string()));
+            }
+            // continue after this block ("-}" for block 4, "}" otherwise)
+            pos = if id == 4 { end + 2 } else { end + 1 };
         }
+        Ok(None)
     }
 
     /// Find the matching closing brace for a block that starts with an opening brace
